@@ -202,19 +202,21 @@ func errDetails(n int) []*anypb.Any {
 // ---------------------------------------------------------------- scenario runtime
 
 type run struct {
-	scn      *scenario
-	rnd      *rand.Rand
-	dict     []proto.Message // message id -> message
-	reqDesc  protoreflect.MessageDescriptor
-	respDesc protoreflect.MessageDescriptor
-	method   protoreflect.MethodDescriptor
-	cHdrs    []hdrTok // client request headers
-	hHdrs    []hdrTok // handler response headers
-	hTrls    []hdrTok // handler trailers
-	errMsg   string
-	errDet   []*anypb.Any
-	faulty   bool   // the scenario injects a stream fault somewhere
-	rpcID    string // set when the run shares its Transcoder with other runs
+	scn         *scenario
+	rnd         *rand.Rand
+	dict        []proto.Message // message id -> message
+	reqDesc     protoreflect.MessageDescriptor
+	respDesc    protoreflect.MessageDescriptor
+	method      protoreflect.MethodDescriptor
+	cHdrs       []hdrTok // client request headers
+	hHdrs       []hdrTok // handler response headers
+	hTrls       []hdrTok // handler trailers
+	errMsg      string
+	errDet      []*anypb.Any
+	faulty      bool   // the scenario injects a stream fault somewhere
+	rpcID       string // set when the run shares its Transcoder with other runs
+	seed        int64
+	clientQuery string // the query string an RPC client's POST carries, if any
 
 	mu       sync.Mutex
 	disp     []dispatchObs
@@ -257,7 +259,7 @@ func (rn *run) msg(id int) proto.Message {
 }
 
 func newRun(scn *scenario, seed int64) *run {
-	rn := &run{scn: scn, rnd: rand.New(rand.NewSource(seed))}
+	rn := &run{scn: scn, rnd: rand.New(rand.NewSource(seed)), seed: seed}
 	rn.faulty = scn.Cl.Cut != "" || scn.Hd.Fault != "" || scn.Cl.CLen == "over" || scn.Cl.CLen == "under" ||
 		scn.Hd.CLen == "short" || scn.Hd.CLen == "long"
 	for _, f := range scn.Cl.Frames {
@@ -330,7 +332,11 @@ func (rn *run) payloadAs(f frameSpec, codec, comp string, as protoreflect.Messag
 			c = "gzip"
 		}
 		data = compressAs(c, data)
-		if f.Fault == "gzcorrupt" && len(data) > 12 {
+		if f.Fault == "gzcorrupt" && c == "zz" {
+			// only the trailing checksum is wrong: the bytes decompress and decode, the decompressor's Close objects
+			data = append([]byte(nil), data...)
+			data[len(data)-1] ^= 0x55
+		} else if f.Fault == "gzcorrupt" && len(data) > 12 {
 			data = append([]byte(nil), data...)
 			data[len(data)/2] ^= 0x55
 			data[len(data)-5] ^= 0xff // CRC
@@ -635,6 +641,16 @@ func (rn *run) buildRequest() (*http.Request, *scriptBody, []byte) {
 		}
 	}
 
+	if method == http.MethodPost && cl.Rej == "" && cl.Path == "" && len(query) == 0 && rn.seed%4 == 0 {
+		switch cl.Form {
+		case "grpc", "grpcweb", "connect_post", "connect_stream":
+			// an RPC client behind something that appends a query string (tracing, cache busting): it means nothing
+			// to these protocols and belongs to no backend request line
+			query.Set("trace", "a b/c")
+			query.Set("message", "x")
+			rn.clientQuery = query.Encode()
+		}
+	}
 	u := &url.URL{Path: path, RawQuery: query.Encode()}
 	if pu, err := url.ParseRequestURI(path); err == nil && cl.Path != "" {
 		// a raw path override goes through the same parsing net/http applies
@@ -952,7 +968,9 @@ func (rn *run) serveBackend(kind string, w http.ResponseWriter, req *http.Reques
 	d.URLLen = len(req.URL.Path) + 1 + len(req.URL.RawQuery)
 	if req.URL.RawQuery != "" {
 		d.Query = "other"
-		if req.URL.Query().Get("connect") == "v1" {
+		if req.URL.RawQuery == rn.clientQuery {
+			d.Query = "client" // the client's own query string, verbatim
+		} else if req.URL.Query().Get("connect") == "v1" {
 			d.Query = "connectget"
 		}
 	}
@@ -1308,6 +1326,11 @@ func (rn *run) respond(w http.ResponseWriter, form, codec string, herr int) {
 			// member), but it begins with a numeric "code" that must not be taken for an RPC code
 			h.Set("Content-Type", "application/json")
 			body = []byte(`{"code":7,"reason":"maintenance"}`)
+		}
+		if form == "connect_post" {
+			for k, v := range trailers {
+				h["Trailer-"+k] = v
+			}
 		}
 		rn.writeResponse(w, status, body, nil)
 		return
